@@ -356,6 +356,71 @@ def gen_async_flow() -> str:
             "Definition g_async_flag_hops : list bool := [\n" + lines + "\n].\n")
 
 
+# ------------------------------------------------------------------------------- Snapshot.read_object wiring (C18)
+def gen_read_object() -> str:
+    fn = find_func(find_class(parse("torchsnapshot/snapshot.py"), "Snapshot"), "read_object")
+    where = "Snapshot.read_object"
+    if "memory_budget_bytes" not in [a.arg for a in fn.args.args + fn.args.kwonlyargs]:
+        raise TranslateError(where, "no parameter memory_budget_bytes")
+    for n in ast.walk(fn):
+        if isinstance(n, (ast.Assign, ast.AugAssign, ast.AnnAssign)):
+            tg = n.targets if isinstance(n, ast.Assign) else [n.target]
+            if any(isinstance(t, ast.Name) and t.id == "memory_budget_bytes" for t in tg):
+                raise TranslateError(where, "memory_budget_bytes is rebound")
+    # 1. prepare_read gets the budget as the buffer limit
+    prs = [n for n in ast.walk(fn) if isinstance(n, ast.Call) and src(n.func) == "prepare_read"]
+    if len(prs) != 1:
+        raise TranslateError(where, f"expected one prepare_read call, found {len(prs)}")
+    kw = {k.arg: src(k.value) for k in prs[0].keywords}
+    limit_ok = kw.get("buffer_size_limit_bytes") == "memory_budget_bytes" and kw.get("entry") == "entry" and kw.get("obj_out") == "obj_out"
+    # 2. the batching decision
+    ifs = [n for n in ast.walk(fn) if isinstance(n, ast.If) and any(isinstance(c, ast.Call) and src(c.func) == "batch_read_requests" for c in ast.walk(n))]
+    if len(ifs) != 1:
+        raise TranslateError(where, f"expected one `if` guarding batch_read_requests, found {len(ifs)}")
+    node = ifs[0]
+    if [src(x) for x in node.body] != ["read_reqs = batch_read_requests(read_reqs=read_reqs)"] or node.orelse:
+        raise TranslateError(where, f"batching branch changed: {[src(x) for x in node.body]}")
+
+    def cond(e):
+        t = src(e)
+        if t == "is_batching_disabled()":
+            return "batching_disabled"
+        if t == "memory_budget_bytes is None":
+            return "(negb budget_given)"
+        if t == "memory_budget_bytes is not None":
+            return "budget_given"
+        if isinstance(e, ast.UnaryOp) and isinstance(e.op, ast.Not):
+            return f"(negb {cond(e.operand)})"
+        if isinstance(e, ast.BoolOp):
+            return "(" + (" && " if isinstance(e.op, ast.And) else " || ").join(cond(v) for v in e.values) + ")"
+        raise TranslateError(where, f"unknown batching condition {t}")
+    # 3. the budget handed to the read scheduler
+    ex = [n for n in ast.walk(fn) if isinstance(n, ast.Call) and src(n.func) == "sync_execute_read_reqs"]
+    if len(ex) != 1:
+        raise TranslateError(where, f"expected one sync_execute_read_reqs call, found {len(ex)}")
+    kw = {k.arg: k.value for k in ex[0].keywords}
+    if src(kw.get("read_reqs", ast.Constant(0))) != "read_reqs":
+        raise TranslateError(where, "sync_execute_read_reqs is not given read_reqs")
+    b = kw.get("memory_budget_bytes")
+    if b is None:
+        raise TranslateError(where, "sync_execute_read_reqs gets no memory_budget_bytes")
+    if src(b) == "memory_budget_bytes or _MAX_PER_RANK_MEMORY_BUDGET_BYTES":
+        bud = "match budget with Some b => if b =? 0 then cap else b | None => cap end"
+    elif src(b) == "memory_budget_bytes":
+        bud = "match budget with Some b => b | None => 0 end"
+    else:
+        raise TranslateError(where, f"unsupported budget expression {src(b)}")
+    # the statements must come in the order prepare_read; batching; execute
+    order = [prs[0].lineno, node.lineno, ex[0].lineno]
+    if order != sorted(order):
+        raise TranslateError(where, "prepare_read / batching / execute are out of order")
+    return ("(* Snapshot.read_object: prepare_read(buffer_size_limit_bytes=memory_budget_bytes); the batching decision;\n"
+            "   the budget handed to sync_execute_read_reqs (`x or cap`: None and 0 mean the cap) *)\n"
+            f"Definition g_ro_limit_is_budget : bool := {'true' if limit_ok else 'false'}.\n"
+            f"Definition g_ro_batches (batching_disabled budget_given : bool) : bool := {cond(node.test)}.\n"
+            f"Definition g_ro_exec_budget (budget : option Z) (cap : Z) : Z := {bud}.\n")
+
+
 def generate() -> dict[str, str]:
     text = ("(* GENERATED by translator/gen_dispatch.py from io_preparer.py, dtensor_utils.py, manifest.py, batcher.py, snapshot.py,\n"
             "   io_preparers/chunked_tensor.py, io_preparers/sharded_tensor.py - do not edit. *)\n"
@@ -363,5 +428,5 @@ def generate() -> dict[str, str]:
             + "\n".join([gen_storage_path(), gen_is_sharded(), gen_entry_parent(), gen_write_kind(), gen_read_kind(),
                          piece_location("torchsnapshot/io_preparers/chunked_tensor.py", "ChunkedTensorIOPreparer", "chunk.offsets", "g_chunk_location"),
                          piece_location("torchsnapshot/io_preparers/sharded_tensor.py", "ShardedTensorIOPreparer", "offsets", "g_shard_location"),
-                         gen_slab_location(), gen_manifest_path(), gen_async_flow()]))
+                         gen_slab_location(), gen_manifest_path(), gen_async_flow(), gen_read_object()]))
     return {"DispatchGen": text}
